@@ -146,10 +146,15 @@ class TypeEnv:
         return [(n, v) for (n, v) in ci.enum_members if not n.startswith("_")]
 
 
+SPECIAL_TYPES: dict = {}      # class name -> constructor(st, name) for library objects with a built-in model
+
+
 def mk_sym(st, tenv: TypeEnv, t, name: str, depth=0) -> V:
     """a fresh symbolic value of type t.  Objects are allocated on the heap with symbolic fields."""
     t = tenv.parse(t)
     k = t[0]
+    if k == "obj" and t[1] in SPECIAL_TYPES:
+        return SPECIAL_TYPES[t[1]](st, name)
     if k == "int":
         c = z3.Int(st.fresh_name(name))
         st.input_terms[name] = c
